@@ -10,7 +10,7 @@ GEN_MODULES = ["Gen_dqstate", "Gen_lanesites", "Gen_once"]
 LEVEL = "proof"
 TRUSTED = [
     "PARTIAL: the theorems are about the dq_state transition bodies / atomic site lists translated from the source on every run "
-    "(all 2^64 words); no global invariant of the lane protocol over all interleavings is proved; the property itself is decided "
+    "(all 2^64 words) in the first properties file; protocol theorems over all interleavings in the extra properties files of this check; what is outside those models is decided "
     "on the implementation by the stress oracle reported in this evidence (exploration, not proof)",
     "src2v translator (clang AST -> Gallina), validated on the functions that have differential harnesses (C06, C12, C18)",
 ]
